@@ -615,6 +615,12 @@ def oracle(c, I=None):
                 o = outcome(I[n], lambda: cls.escape(s).stripentities(keepxmlentities=True))
                 if o != ('ok', 'Markup', spec_escape(s, False)):
                     bad('stripentities[%s](keepxmlentities) keeps the XML entities' % n, ('ok', 'Markup', spec_escape(s, False)), o)
+                # the documented five: &amp; &apos; &gt; &lt; &quot; are left intact
+                e0 = spec_escape(s, False)
+                for ent in ('&amp;', '&apos;', '&gt;', '&lt;', '&quot;'):
+                    o = outcome(I[n], lambda: cls(e0 + ent + e0).stripentities(keepxmlentities=True))
+                    if o != ('ok', 'Markup', e0 + ent + e0):
+                        bad('stripentities[%s](keepxmlentities) leaves %s intact' % (n, ent), ('ok', 'Markup', e0 + ent + e0), o)
             else:
                 o = outcome(I[n], lambda: cls.escape(s).striptags())
                 if o != ('ok', 'Markup', spec_escape(s)):
